@@ -15,7 +15,7 @@ from .core import SIM, HarnessError, install
 from .hist import classify_exception, drop_scratch, new_scratch, short_tb
 from .world import DEFAULT_KNOBS, Knobs, Violation, World, absent_key, make_config, make_pool_specs
 
-QUERY_KINDS = ['has', 'single', 'bulk', 'meta', 'list', 'stream']
+QUERY_KINDS = ['has', 'single', 'bulk', 'meta', 'list', 'stream', 'streamseek']
 
 
 def generate(prop, seed, tier='quick'):
@@ -105,6 +105,26 @@ def query_handle(world, side, hidx, kinds, rng):  # pylint: disable=too-many-bra
             exp = {k: model.get(k) for k in request}
             if seen != exp:
                 fail('wrong-bytes', f'get_objects_stream_and_meta differs for {[k[:12] for k in exp if seen.get(k, 0) != exp[k]]}')
+        elif kind == 'streamseek':
+            # random access on the streams of a bulk read (zip / npy readers do this): a backward seek makes a compressed
+            # packed object fall back to its re-loosened copy, which must be the copy of *this* object
+            subset = request if len(request) <= 40 else rng.sample(request, 40)
+            with handle.get_objects_stream_and_meta(subset, skip_if_missing=True) as triplets:
+                for key, stream, _ in triplets:
+                    data = model.get(key)
+                    if data is None:
+                        fail('unexpected-key', f'get_objects_stream_and_meta yields {key[:12]}')
+                    head = stream.read(min(3, len(data)))
+                    end = stream.seek(0, 2)
+                    back = rng.randrange(len(data) + 1)
+                    pos = stream.seek(-back, 2) if back or rng.random() < 0.5 else stream.seek(len(data))
+                    tail = stream.read()
+                    if head != data[: len(head)] or end != len(data) or pos != len(data) - back or tail != data[len(data) - back :]:
+                        fail(
+                            'wrong-bytes',
+                            f'bulk stream of {key[:12]} (len {len(data)}): read(3)={head!r} seek(0,2)={end} '
+                            f'seek(-{back},2)={pos} then read() gives {len(tail)} bytes, matching={tail == data[len(data) - back :]}',
+                        )
 
 
 class HandlesOracle:
